@@ -40,6 +40,7 @@ type env interface {
 	listenUDP(addr string) (net.PacketConn, error)
 	listenUDPNet(network, addr string) (net.PacketConn, error)
 	dialer(control func(network, address string, c syscall.RawConn) error) dialer
+	dialerDeadline(control func(network, address string, c syscall.RawConn) error, fromNow time.Duration) dialer
 	resolveUDP(addr string) (*net.UDPAddr, error)
 	spawn(f func()) (wait func())
 	sleep(d time.Duration)
@@ -76,6 +77,9 @@ func (realEnv) listenUDPNet(network, addr string) (net.PacketConn, error) {
 }
 func (realEnv) dialer(control func(network, address string, c syscall.RawConn) error) dialer {
 	return &net.Dialer{Control: control, Timeout: time.Second}
+}
+func (realEnv) dialerDeadline(control func(network, address string, c syscall.RawConn) error, fromNow time.Duration) dialer {
+	return &net.Dialer{Control: control, Deadline: time.Now().Add(fromNow)}
 }
 func (realEnv) resolveUDP(addr string) (*net.UDPAddr, error) { return net.ResolveUDPAddr("udp", addr) }
 func (realEnv) spawn(f func()) func() {
@@ -117,6 +121,9 @@ func (vnetEnv) listenUDPNet(network, addr string) (net.PacketConn, error) {
 }
 func (vnetEnv) dialer(control func(network, address string, c syscall.RawConn) error) dialer {
 	return &vnet.Dialer{Control: control}
+}
+func (vnetEnv) dialerDeadline(control func(network, address string, c syscall.RawConn) error, fromNow time.Duration) dialer {
+	return &vnet.Dialer{Control: control, Deadline: vrt.NowQuiet().Add(fromNow)}
 }
 func (vnetEnv) resolveUDP(addr string) (*net.UDPAddr, error) { return vnet.ResolveUDPAddr("udp", addr) }
 func (vnetEnv) spawn(f func()) func() {
@@ -608,6 +615,24 @@ var Scenarios = []Scenario{
 		d := e.dialer(func(network, address string, c syscall.RawConn) error { called = true; return nil })
 		_, err := d.DialContext(ctx, "tcp", "127.0.0.1:81")
 		l.add("dial with cancelled context: failed=%v control called=%v canceled=%v", err != nil, called, errors.Is(err, context.Canceled))
+	}},
+	{"dialer-deadline-passed-and-pending", func(e env, l *log) {
+		ln, err := e.listenTCP("127.0.0.1:0")
+		if err != nil {
+			l.add("listen: %v", err)
+			return
+		}
+		defer ln.Close()
+		for _, fromNow := range []time.Duration{-time.Second, -time.Hour, time.Hour} {
+			called := false
+			d := e.dialerDeadline(func(network, address string, c syscall.RawConn) error { called = true; return nil }, fromNow)
+			c, err := d.DialContext(context.Background(), "tcp", ln.Addr().String())
+			var oe *net.OpError
+			l.add("deadline %v from now: %s control called=%v op-error=%v deadline-exceeded=%v", fromNow, class(err), called, errors.As(err, &oe) && oe.Op == "dial", errors.Is(err, context.DeadlineExceeded))
+			if c != nil {
+				c.Close()
+			}
+		}
 	}},
 	{"resolve-udp-literals", func(e env, l *log) {
 		for _, a := range []string{":53", "[::]:53", "0.0.0.0:53", "127.0.0.1:53", "[::1]:53", "[::ffff:10.0.0.1]:53", "[fe80::1%lo]:53", "10.0.0.1:0", "bad:port:53", "1.2.3.4"} {
